@@ -932,6 +932,9 @@ class GroupBy:
                 count[pointer] += block_count
             if orig_types[0].kind in "mM" and combined.dtype.kind == "i":
                 combined = combined.view(orig_types[0])
+            if func_name in ("size", "count"):
+                # the result of a counting function is the count (plus the null-key slot)
+                combined = np.append(count, 0)
             individual_results.append((combined, count))
 
         return individual_results
